@@ -206,8 +206,12 @@ EXPORT int _vsnwprintf_s_chk(wchar_t *restrict dest, rsize_t dmax,
             ret = vswprintf(tmp, 512, fmt, ap2);
         } else {
             wchar_t *tmp = (wchar_t *)malloc(dmax * sizeof(wchar_t));
-            ret = vswprintf(tmp, dmax, fmt, ap2);
-            free(tmp);
+            if (tmp) {
+                ret = vswprintf(tmp, dmax, fmt, ap2);
+                free(tmp);
+            } else {
+                errno = ENOMEM; /* ret stays -1: reported below as a failure */
+            }
         }
         /* this will bump ret to > 0 */
     }
